@@ -425,15 +425,46 @@ func ruleAllocationSizesChecked(p *Program, r *Report) {
 			to, ok2 := c.Type().Underlying().(*types.Basic)
 			return ok1 && ok2 && from.Info()&types.IsFloat != 0 && to.Info()&types.IsInteger != 0
 		}
-		// the root of a size: a float→int conversion here, or a captured variable that holds one
-		rootOf := func(sz ssa.Value) (root ssa.Value, where token.Pos) {
-			DependsOn(sz, func(v ssa.Value) bool {
-				switch x := v.(type) {
+		// the root of a size: a float→int conversion here, a captured variable that holds one, or a parameter that
+		// some call site of this (package-local) function gives one
+		var convIn func(v ssa.Value, depth int) (bool, token.Pos)
+		convIn = func(v ssa.Value, depth int) (bool, token.Pos) {
+			if depth > 4 || v == nil {
+				return false, 0
+			}
+			found := false
+			var where token.Pos
+			DependsOn(v, func(w ssa.Value) bool {
+				switch x := w.(type) {
 				case *ssa.Convert:
 					if isF2I(x) {
-						root, where = x, x.Pos()
+						found, where = true, x.Pos()
 						return true
 					}
+				case *ssa.Parameter:
+					g := x.Parent()
+					idx := -1
+					for i, q := range g.Params {
+						if q == x {
+							idx = i
+						}
+					}
+					if idx < 0 || !InRepo(g) {
+						return false
+					}
+					for _, caller := range p.RepoFns {
+						if caller.Pkg != g.Pkg {
+							continue
+						}
+						ForEachInstr(caller, func(i2 ssa.Instruction) {
+							if c, ok := i2.(ssa.CallInstruction); ok && c.Common().StaticCallee() == g && idx < len(c.Common().Args) && !found {
+								if ok2, pos := convIn(c.Common().Args[idx], depth+1); ok2 {
+									found, where = true, pos
+								}
+							}
+						})
+					}
+					return found
 				case *ssa.FreeVar:
 					b := bindingOf(x)
 					for i := 0; i < 4; i++ {
@@ -443,30 +474,35 @@ func ruleAllocationSizesChecked(p *Program, r *Report) {
 					}
 					if al, ok := b.(*ssa.Alloc); ok {
 						for _, ref := range *al.Referrers() {
-							if st, ok := ref.(*ssa.Store); ok && st.Addr == ssa.Value(al) {
-								if DependsOn(st.Val, func(w ssa.Value) bool {
-									c, ok := w.(*ssa.Convert)
-									if ok && isF2I(c) {
-										where = c.Pos()
-									}
-									return ok && isF2I(c)
-								}) {
-									root = x
-									return true
+							if st, ok := ref.(*ssa.Store); ok && st.Addr == ssa.Value(al) && !found {
+								if ok2, pos := convIn(st.Val, depth+1); ok2 {
+									found, where = true, pos
 								}
 							}
 						}
-					} else if b != nil {
-						if DependsOn(b, func(w ssa.Value) bool {
-							c, ok := w.(*ssa.Convert)
-							if ok && isF2I(c) {
-								where = c.Pos()
-							}
-							return ok && isF2I(c)
-						}) {
-							root = x
-							return true
+					} else if b != nil && !found {
+						if ok2, pos := convIn(b, depth+1); ok2 {
+							found, where = true, pos
 						}
+					}
+					return found
+				}
+				return false
+			})
+			return found, where
+		}
+		rootOf := func(sz ssa.Value) (root ssa.Value, where token.Pos) {
+			DependsOn(sz, func(v ssa.Value) bool {
+				switch x := v.(type) {
+				case *ssa.Convert:
+					if isF2I(x) {
+						root, where = x, x.Pos()
+						return true
+					}
+				case *ssa.FreeVar, *ssa.Parameter:
+					if ok, pos := convIn(x, 0); ok {
+						root, where = x, pos
+						return true
 					}
 				}
 				return false
